@@ -17,6 +17,7 @@ import (
 	"go/types"
 	"os"
 	"path/filepath"
+	"runtime"
 	"sort"
 	"strings"
 
@@ -74,7 +75,13 @@ func writeBaseline(repo, tags string) error {
 }
 
 func loadPkgs(repo string, overlay map[string][]byte, tags string) ([]*packages.Package, error) {
-	cfg := &packages.Config{Mode: packages.LoadAllSyntax, Dir: repo, Tests: false, Overlay: overlay}
+	return loadPkgsMode(repo, overlay, tags, packages.LoadAllSyntax)
+}
+
+// loadPkgsMode: LoadSyntax (module packages from source, dependencies from export data) is enough for
+// the inlining steps and much cheaper than the full load the analysis needs.
+func loadPkgsMode(repo string, overlay map[string][]byte, tags string, mode packages.LoadMode) ([]*packages.Package, error) {
+	cfg := &packages.Config{Mode: mode, Dir: repo, Tests: false, Overlay: overlay}
 	cfg.Env = append(os.Environ(), "GOWORK=off")
 	if tags != "" {
 		cfg.BuildFlags = []string{"-tags=" + tags}
@@ -102,10 +109,10 @@ func loadPkgs(repo string, overlay map[string][]byte, tags string) ([]*packages.
 // normalize returns the packages to analyse: pkgs itself when the tree has no function unknown to the
 // baseline, otherwise the packages reloaded with an overlay in which calls to the unknown functions
 // are inlined. notes describe what was done.
-func normalize(repo string, overlay map[string][]byte, tags string, pkgs []*packages.Package) ([]*packages.Package, map[string][]byte, []string) {
+func normalize(repo string, overlay map[string][]byte, tags string, pkgs []*packages.Package) (map[string][]byte, []string, bool) {
 	base := loadBaseline()
 	if base == nil || os.Getenv("FDCHECK_NO_NORMALIZE") != "" {
-		return pkgs, overlay, nil
+		return overlay, nil, false
 	}
 	var notes []string
 	ov := map[string][]byte{}
@@ -113,8 +120,8 @@ func normalize(repo string, overlay map[string][]byte, tags string, pkgs []*pack
 		ov[k] = v
 	}
 	failed := map[string]bool{}
-	origPkgs := pkgs
 	prevOv := copyOverlay(ov)
+	didAny := false
 	for iter := 0; iter < 10; iter++ {
 		isNew := func(fn *types.Func) bool {
 			if fn == nil || fn.Pkg() == nil {
@@ -261,7 +268,9 @@ func normalize(repo string, overlay map[string][]byte, tags string, pkgs []*pack
 				break
 			}
 		}
-		np, err := loadPkgs(repo, ov, tags)
+		pkgs = nil // let the previous package set go before the next load
+		runtime.GC()
+		np, err := loadPkgsMode(repo, ov, tags, packages.LoadSyntax)
 		if err != nil {
 			if !changed {
 				// removing the helpers broke the build (an unexported method can still satisfy an interface):
@@ -272,15 +281,18 @@ func normalize(repo string, overlay map[string][]byte, tags string, pkgs []*pack
 			}
 			// the normal form does not build: analyse the tree as it is
 			notes = append(notes, "normal form abandoned (does not type-check after inlining): "+firstLine(err.Error()))
-			return origPkgs, overlay, notes
+			return overlay, notes, false
 		}
+		didAny = true
+		pkgs = nil
+		runtime.GC()
 		pkgs = np
 		prevOv = copyOverlay(ov)
 		if !changed {
 			break
 		}
 	}
-	return pkgs, ov, notes
+	return ov, notes, didAny
 }
 
 func relPos(repo string, p token.Position) string {
